@@ -2,6 +2,7 @@
    The journal part is a theorem; the interplay with tables, flush and eviction is decided by crash enumeration
    on the real code (py/props/c02.py). *)
 From FJ Require Import Bytes Codec Reader ReaderP Writer WriterP DurableP Lsm Tracker Db RecoverP.
+From FJ Require OrderP DbOrderP RefineP RecoverInvP JournalInvP.
 
 (* with automatic journal persist every write is followed by persist(Buffer) before it is acknowledged:
    the bytes of every acknowledged batch have been handed to the OS *)
@@ -41,7 +42,16 @@ Theorem C02_acknowledged_clear_is_journaled_partial : forall d id d',
   do_clear d id = (d', ObOk) -> d_active d' = d_active d ++ [mk_batch (d_seqno d) [] [id]].
 Proof. exact clear_journaled. Qed.
 
+(* model level, every program (with journal sealing and eviction): whatever has not reached a table is in a journal file that
+   still exists — so it is there to be replayed after a crash (C04_uncovered_records_replayed_partial says it is replayed) *)
+Theorem C02_unflushed_writes_are_in_a_live_journal : forall mode filters (ops : list DbOrderP.wop) (ks : kspace) (e : ent),
+  let d := fold_left DbOrderP.wstep ops (db_init mode filters) in
+  In ks (d_kss d) -> In (k_id ks) (map snd (d_map d)) -> k_deleted ks = false ->
+  In e (RecoverInvP.memsrc (k_tree ks)) -> exists b, In b (RecoverInvP.J d) /\ rb_seqno b = es e.
+Proof. exact JournalInvP.journal_complete. Qed.
+
 Print Assumptions C02_acknowledged_bytes_reach_the_os.
 Print Assumptions C02_journal_recovers_acknowledged_prefix.
 Print Assumptions C02_acknowledged_write_is_journaled_partial.
 Print Assumptions C02_acknowledged_clear_is_journaled_partial.
+Print Assumptions C02_unflushed_writes_are_in_a_live_journal.
